@@ -43,14 +43,17 @@ VARIABLES l,        \* next trace line
           txOff,           \* stream offset the next new data segment must carry
           first,           \* per sender: sequence of <<pt, frag, dig, plen>> of first transmissions
           contig, ahead,   \* per receiver: delivered seqs = 0..contig-1 plus `ahead`
+          pat,             \* per endpoint: nonce pattern and low-entropy setting in effect
+          cle,             \* per session: the client has emitted low-entropy data
           last             \* the event just consumed, plus the pre-state facts its property needs
 
-vars == <<l, cfg, wBegun, wDone, closing, rTotal, nextSeq, txOff, first, contig, ahead, last>>
+vars == <<l, cfg, wBegun, wDone, closing, rTotal, nextSeq, txOff, first, contig, ahead, pat, cle, last>>
 
 Zero == [k \in Keys |-> 0]
 NoCfg == [transport |-> "", mtu |-> 0, cmid |-> 255, cend |-> 255, smid |-> 255, send |-> 255,
           clean |-> TRUE, tampers |-> 0, ns |-> 0, complete |-> FALSE]
 Idle == [ev |-> "none"]
+NoPat == [type |-> 0, min |-> 0, max |-> 0, apply |-> 0, mode |-> 0, rot |-> 0, nfixed |-> 0, tcpfrag |-> FALSE]
 
 Reset == /\ cfg' = NoCfg
          /\ wBegun' = Zero /\ wDone' = Zero /\ rTotal' = Zero
@@ -58,11 +61,13 @@ Reset == /\ cfg' = NoCfg
          /\ nextSeq' = Zero /\ txOff' = Zero
          /\ first' = [k \in Keys |-> <<>>]
          /\ contig' = Zero /\ ahead' = [k \in Keys |-> {}]
+         /\ pat' = [e \in Eps |-> NoPat] /\ cle' = [s \in 0..(MaxS - 1) |-> FALSE]
 
 Init == /\ l = 1
         /\ cfg = NoCfg /\ wBegun = Zero /\ wDone = Zero /\ rTotal = Zero
         /\ closing = [k \in Keys |-> FALSE] /\ nextSeq = Zero /\ txOff = Zero
         /\ first = [k \in Keys |-> <<>>] /\ contig = Zero /\ ahead = [k \in Keys |-> {}]
+        /\ pat = [e \in Eps |-> NoPat] /\ cle = [s \in 0..(MaxS - 1) |-> FALSE]
         /\ last = Idle
 
 E == Trace[l]
@@ -79,19 +84,25 @@ Cfg == /\ E.ev = "Cfg"
        /\ cfg' = [transport |-> E.ep, mtu |-> E.wlen, cmid |-> E.pre, cend |-> E.suf, smid |-> E.a,
                   send |-> E.b, clean |-> E.ok, tampers |-> E.n, ns |-> E.s, complete |-> (E.fate = "complete")]
        /\ last' = [ev |-> "Cfg"]
-       /\ UNCHANGED <<wBegun, wDone, closing, rTotal, nextSeq, txOff, first, contig, ahead>>
+       /\ UNCHANGED <<wBegun, wDone, closing, rTotal, nextSeq, txOff, first, contig, ahead, pat, cle>>
+
+Pat == /\ E.ev = "Pat" /\ E.ep \in Eps
+       /\ pat' = [pat EXCEPT ![E.ep] = [type |-> E.pt, min |-> E.n, max |-> E.a, apply |-> E.b, mode |-> E.win,
+                                          rot |-> E.frag, nfixed |-> E.plen, tcpfrag |-> E.ok]]
+       /\ last' = [ev |-> "Pat"]
+       /\ UNCHANGED <<cfg, wBegun, wDone, closing, rTotal, nextSeq, txOff, first, contig, ahead, cle>>
 
 WriteBegin == /\ E.ev = "Wb" /\ Known(E)
               /\ wBegun' = [wBegun EXCEPT ![K(E)] = @ + E.n]
               /\ last' = [ev |-> "Wb"]
-              /\ UNCHANGED <<cfg, wDone, closing, rTotal, nextSeq, txOff, first, contig, ahead>>
+              /\ UNCHANGED <<cfg, wDone, closing, rTotal, nextSeq, txOff, first, contig, ahead, pat, cle>>
 
 WriteRet == /\ E.ev = "W" /\ Known(E)
             /\ wDone' = [wDone EXCEPT ![K(E)] = @ + E.n]
             \* bytes offered but not accepted are no longer "in progress"
             /\ wBegun' = [wBegun EXCEPT ![K(E)] = @ - (E.a - E.n)]
             /\ last' = [ev |-> "W", k |-> K(E), n |-> E.n, err |-> E.err]
-            /\ UNCHANGED <<cfg, closing, rTotal, nextSeq, txOff, first, contig, ahead>>
+            /\ UNCHANGED <<cfg, closing, rTotal, nextSeq, txOff, first, contig, ahead, pat, cle>>
 
 ReadRet == /\ E.ev = "R" /\ Known(E)
            /\ rTotal' = [rTotal EXCEPT ![K(E)] = @ + E.n]
@@ -100,16 +111,16 @@ ReadRet == /\ E.ev = "R" /\ Known(E)
                        selfClosing |-> closing[K(E)], peerClosing |-> closing[PeerK(K(E))],
                        peerDone |-> wDone[PeerK(K(E))], peerBegun |-> wBegun[PeerK(K(E))],
                        total |-> rTotal[K(E)] + E.n]
-           /\ UNCHANGED <<cfg, wBegun, wDone, closing, nextSeq, txOff, first, contig, ahead>>
+           /\ UNCHANGED <<cfg, wBegun, wDone, closing, nextSeq, txOff, first, contig, ahead, pat, cle>>
 
 CloseBegin == /\ E.ev = "Cb" /\ Known(E)
               /\ closing' = [closing EXCEPT ![K(E)] = TRUE]
               /\ last' = [ev |-> "Cb"]
-              /\ UNCHANGED <<cfg, wBegun, wDone, rTotal, nextSeq, txOff, first, contig, ahead>>
+              /\ UNCHANGED <<cfg, wBegun, wDone, rTotal, nextSeq, txOff, first, contig, ahead, pat, cle>>
 
 CloseRet == /\ E.ev = "Cr"
             /\ last' = [ev |-> "Cr", ms |-> E.n]
-            /\ UNCHANGED <<cfg, wBegun, wDone, closing, rTotal, nextSeq, txOff, first, contig, ahead>>
+            /\ UNCHANGED <<cfg, wBegun, wDone, closing, rTotal, nextSeq, txOff, first, contig, ahead, pat, cle>>
 
 (* A segment on the wire.  Unknown session (s = -1): only the size and
    decodability obligations apply. *)
@@ -131,38 +142,41 @@ Tx == /\ E.ev = "Tx"
                      offOK |-> (~isNew \/ (E.off = txOff[k] /\ E.ok)),
                      same |-> (~isRetx \/ (E.seq + 1 <= Len(first[k]) /\ first[k][E.seq + 1] = sig)),
                      hasAck |-> (known /\ E.pt \in (DataTypes \cup AckTypes)),
-                     una |-> E.una, contig |-> (IF known THEN contig[k] ELSE 0)]
-      /\ UNCHANGED <<cfg, wBegun, wDone, closing, rTotal, contig, ahead>>
+                     una |-> E.una, contig |-> (IF known THEN contig[k] ELSE 0),
+                     npp |-> E.npp, nps |-> E.nps, nfx |-> E.nfx,
+                     clientUsedLE |-> (IF Known(E) THEN cle[E.s] ELSE FALSE)]
+      /\ cle' = IF Known(E) /\ E.ep = "C" /\ E.pt = 10 THEN [cle EXCEPT ![E.s] = TRUE] ELSE cle
+      /\ UNCHANGED <<cfg, wBegun, wDone, closing, rTotal, contig, ahead, pat>>
 
 Rx == /\ E.ev = "Rx"
       /\ IF Known(E) /\ E.pt \in SeqTypes /\ E.seq >= contig[K(E)]
          THEN LET r == Advance(contig[K(E)], ahead[K(E)] \cup {E.seq})
               IN /\ contig' = [contig EXCEPT ![K(E)] = r[1]]
                  /\ ahead' = [ahead EXCEPT ![K(E)] = r[2]]
-         ELSE UNCHANGED <<contig, ahead>>
+         ELSE UNCHANGED <<contig, ahead, pat, cle>>
       /\ last' = [ev |-> "Rx"]
-      /\ UNCHANGED <<cfg, wBegun, wDone, closing, rTotal, nextSeq, txOff, first>>
+      /\ UNCHANGED <<cfg, wBegun, wDone, closing, rTotal, nextSeq, txOff, first, pat, cle>>
 
 End == /\ E.ev = "End"
        /\ last' = [ev |-> "End", ok |-> E.ok, ms |-> E.n,
                    allRead |-> \A k \in Keys : k[2] < cfg.ns => rTotal[k] = wDone[PeerK(k)]]
-       /\ UNCHANGED <<cfg, wBegun, wDone, closing, rTotal, nextSeq, txOff, first, contig, ahead>>
+       /\ UNCHANGED <<cfg, wBegun, wDone, closing, rTotal, nextSeq, txOff, first, contig, ahead, pat, cle>>
 
 Mark == /\ E.ev = "Mark"
         /\ last' = [ev |-> "Mark", ok |-> E.ok, bound |-> E.n]
-        /\ UNCHANGED <<cfg, wBegun, wDone, closing, rTotal, nextSeq, txOff, first, contig, ahead>>
+        /\ UNCHANGED <<cfg, wBegun, wDone, closing, rTotal, nextSeq, txOff, first, contig, ahead, pat, cle>>
 
-Other == /\ E.ev \notin {"Begin", "Cfg", "Wb", "W", "R", "Cb", "Cr", "Tx", "Rx", "End", "Mark"}
+Other == /\ E.ev \notin {"Begin", "Cfg", "Wb", "W", "R", "Cb", "Cr", "Tx", "Rx", "End", "Mark", "Pat"}
          /\ last' = [ev |-> E.ev]
-         /\ UNCHANGED <<cfg, wBegun, wDone, closing, rTotal, nextSeq, txOff, first, contig, ahead>>
+         /\ UNCHANGED <<cfg, wBegun, wDone, closing, rTotal, nextSeq, txOff, first, contig, ahead, pat, cle>>
 \* events about unknown sessions (s = -1) that are not Tx
 Unattributed == /\ E.ev \in {"Wb", "W", "R", "Cb"} /\ ~Known(E)
                 /\ last' = [ev |-> "unattributed", what |-> E.ev, n |-> E.n, err |-> E.err]
-                /\ UNCHANGED <<cfg, wBegun, wDone, closing, rTotal, nextSeq, txOff, first, contig, ahead>>
+                /\ UNCHANGED <<cfg, wBegun, wDone, closing, rTotal, nextSeq, txOff, first, contig, ahead, pat, cle>>
 
 Next == /\ l <= Len(Trace)
         /\ l' = l + 1
-        /\ (Begin \/ Cfg \/ WriteBegin \/ WriteRet \/ ReadRet \/ CloseBegin \/ CloseRet \/ Tx \/ Rx \/ End \/ Mark
+        /\ (Begin \/ Cfg \/ WriteBegin \/ WriteRet \/ ReadRet \/ CloseBegin \/ CloseRet \/ Tx \/ Rx \/ End \/ Mark \/ Pat
             \/ Other \/ Unattributed)
 
 Spec == Init /\ [][Next]_vars
@@ -206,6 +220,20 @@ PadOK == (last.ev = "Tx" /\ last.decodable) =>
                end == IF last.ep = "C" THEN cfg.cend ELSE cfg.send
            IN /\ last.suf <= end
               /\ (last.pt \notin SessionTypes => last.pre <= mid)
+
+\* C16: the nonce prefix exhibits the configured type (where the pattern must have been applied:
+\* the single nonce of a TCP direction, every UDP datagram when applyToAllUDPPacket)
+NonceOK == (last.ev = "Tx" /\ last.decodable /\ last.npp >= 0 /\ (cfg.transport = "tcp" \/ pat[last.ep].apply = 1)) =>
+             LET p == pat[last.ep] IN
+             /\ (p.type = 1 => last.npp >= p.min)
+             /\ (p.type = 2 => last.nps >= p.min)
+             /\ ((p.type = 3 /\ p.nfixed > 0) => last.nfx = 1)
+
+\* C16: each side uses low entropy per its own setting; a server only toward a client that used it first
+LEOK == (last.ev = "Tx" /\ last.decodable /\ last.known /\ last.pt \in DataTypes) =>
+          /\ (last.ep = "C" => ((last.pt = 10) <=> (pat["C"].mode # 0)))
+          /\ (last.ep = "S" /\ last.pt = 11 => (pat["S"].mode # 0 /\ last.clientUsedLE))
+          /\ (last.ep = "S" /\ last.pt = 7 /\ pat["S"].mode # 0 => TRUE)
 
 \* C02 progress / completion, when the scenario expects it
 Completes == (last.ev = "End" /\ cfg.complete) => (last.ok /\ last.allRead)
